@@ -11,6 +11,7 @@ nesting depth and every position of the injected fault: `exec_keeps_extension`, 
 import NV.C05.Model
 import NV.C05.Lemmas
 import NV.C05.Exec
+import NV.C05.Spec
 
 namespace NV.C05
 
@@ -333,5 +334,48 @@ theorem catch_yields_message_exec (body : Prog) (m m1 m5 : M) (econ : Ctx)
   refine ⟨m', ?_, h2, h4, h5, h3, h6⟩
   simp only [execCore, hs, hb]
   rw [he]; exact h1
+
+/-! ### top theorem: the model satisfies the oracle -/
+
+/-- the snapshot the harness prints, as data -/
+def obsOf (m : M) : Obs :=
+  { sp := m.vs.length, csp := m.cs.length, ctx := m.ctxs.length, cg := m.cg, co := m.r.co, po := m.r.prevOb,
+    prog := m.r.prog, ct := m.r.callerType, fp := m.r.fp, pc := m.r.pc, fio := m.r.fio, vio := m.r.vio }
+
+def isErr : Res → Bool
+  | .err _ => true
+  | _ => false
+
+/-- one driver-level evaluation of the model, as the oracle sees it -/
+def observeTop (ob : Val) (p : Prog) (k : Nat) (m0 : M) : TopObs :=
+  match saveContext m0 with
+  | none => { before := obsOf m0, after := obsOf m0, failed := false, crashed := false }   -- "too deep": nothing ran
+  | some (econ, m1) =>
+    let r := topBody ob p { m1 with fault := k }
+    match topFinish econ m0.ctxs r with
+    | .ok m' => { before := obsOf m0, after := obsOf m', failed := isErr r, crashed := false }
+    | .err m' => { before := obsOf m0, after := obsOf m', failed := true, crashed := true }
+    | .crash _ m' => { before := obsOf m0, after := obsOf m', failed := true, crashed := true }
+
+/-- **model_satisfies_spec.**  For every program, object, fault position and start state, the register clauses of the
+    specification oracle find nothing on the model's driver-level evaluation.  (The string-level judge applied to
+    implementation traces compares exactly these fields, parsed from the snapshot text.) -/
+theorem model_satisfies_spec (ob : Val) (p : Prog) (k : Nat) (m0 : M) : judgeObs (observeTop ob p k m0) = [] := by
+  unfold observeTop
+  cases hs : saveContext m0 with
+  | none => simp [judgeObs]
+  | some em =>
+    obtain ⟨econ, m1⟩ := em
+    obtain ⟨m', h1, hv, hc, hx, hr, hcg⟩ := top_restores ob p k m0 m1 econ hs
+    simp only [h1]
+    have hcg' : isErr (topBody ob p { m1 with fault := k }) = true → m'.cg = m0.cg := by
+      intro he
+      cases hb : topBody ob p { m1 with fault := k } with
+      | err me => exact hcg ⟨me, hb⟩
+      | ok _ => rw [hb] at he; cases he
+      | crash _ _ => rw [hb] at he; cases he
+    cases he : isErr (topBody ob p { m1 with fault := k }) with
+    | false => simp [judgeObs, obsOf, hv, hc, hx, hr]
+    | true => simp [judgeObs, obsOf, hv, hc, hx, hr, hcg' he]
 
 end NV.C05
